@@ -275,15 +275,13 @@ impl Language for Python {
             .format_type(&ty.r#type, ty.generic_types.as_slice())
             .map_err(|e| std::io::Error::new(std::io::ErrorKind::Other, e))?;
 
-        writeln!(
-            w,
-            "{}{} = {}\n",
-            ty.id.renamed,
-            (!ty.generic_types.is_empty())
-                .then(|| format!("[{}]", ty.generic_types.join(", ")))
-                .unwrap_or_default(),
-            r#type,
-        )?;
+        // A generic alias is written `Name = List[T]` with `T` a TypeVar; `Name[T] = ...`
+        // would subscript a name that does not exist yet.
+        for generic in &ty.generic_types {
+            self.add_type_var(generic.clone());
+        }
+
+        writeln!(w, "{} = {}\n", ty.id.renamed, r#type)?;
 
         self.write_comments(w, true, &ty.comments, 0)?;
 
